@@ -27,6 +27,9 @@ pub assume_specification[ std::path::Path::file_stem ](p: &std::path::Path) -> (
     ensures (r is Some) == (stem_text(p) is Some), r is Some ==> osstr_text(r->Some_0) == stem_text(p)->Some_0;
 pub assume_specification[ std::path::Path::extension ](p: &std::path::Path) -> (r: Option<&std::ffi::OsStr>)
     ensures (r is Some) == (ext_text(p) is Some), r is Some ==> osstr_text(r->Some_0) == ext_text(p)->Some_0;
+pub uninterp spec fn file_name_text(p: &std::path::Path) -> Option<Seq<char>>;
+pub assume_specification[ std::path::Path::file_name ](p: &std::path::Path) -> (r: Option<&std::ffi::OsStr>)
+    ensures (r is Some) == (file_name_text(p) is Some), r is Some ==> osstr_text(r->Some_0) == file_name_text(p)->Some_0;
 pub assume_specification[ std::ffi::OsStr::to_string_lossy ](s: &std::ffi::OsStr) -> (r: std::borrow::Cow<'_, str>)
     ensures cow_text(r) == osstr_text(s);
 /// R29 SHIM for `cow == text` (`impl PartialEq<&str> for Cow<str>`: its signature has lifetime binders assume_specification cannot match)
@@ -124,6 +127,14 @@ pub mod file_spec {
             assert(r1.subrange(1, r1.len() as int) =~= rest);
         }
     }
+
+    /// the name filter of read_dir_related_files: the file name starts with the fixed name part (entries without a file name are dropped)
+    pub(crate) fn name_has_fixed_part(path: &PathBuf, fixed_name_part: String) -> (r: bool)
+        ensures
+            r == (file_name_text(pathbuf_path(path)) is Some && is_prefix_chars(fixed_name_part@, file_name_text(pathbuf_path(path))->Some_0)), //@label read_dir_related_files.name.post C14,C16
+    //@ span src/parameters/file_spec.rs impl FileSpec / fn read_dir_related_files
+    //@   blocknth 1/1 .filter(|path|
+    //@   rename name_has_fixed_part
 
     /// first filter closure of filter_files: the configured suffix
     pub(crate) fn suffix_matches(path: &&PathBuf, o_suffix: Option<&str>) -> (r: bool)
